@@ -172,6 +172,9 @@ def check_qsvd(A4, svals_true=None, tol=1e-9, trunc=True):
             UR4, VR4 = rt.q_to4(UR), rt.q_to4(VR)
             if UR4.shape[:2] != (m, R) or VR4.shape[:2] != (n, R) or len(sR) != R:
                 return {"what": "truncated shapes", "R": R}, facts
+            euR, evR = rt.fro(rt.qmm(rt.qH(UR4), UR4) - rt.eye4(R)), rt.fro(rt.qmm(rt.qH(VR4), VR4) - rt.eye4(R))
+            if not (euR <= tol and evR <= tol):
+                return {"what": "truncated U_R or V_R columns not orthonormal", "R": R, "errU": euR, "errV": evR}, facts
             D = np.zeros((R, R, 4))
             for i in range(R):
                 D[i, i, 0] = sR[i]
